@@ -257,6 +257,9 @@ class DataReadout(MeterMessageBase):
 class ModeDReader(MeterReaderBase[DataReadout]):
     """Direct Local Data Exchange mode D data reader."""
 
+    # Unconsumed input plus collected lines kept between two calls of read() never exceed this.
+    MAX_READOUT_LENGTH: int = 8191
+
     def __init__(self) -> None:
         """Initialize ModeDReader."""
         self._buffer = _ReaderBuffer()
@@ -277,10 +280,6 @@ class ModeDReader(MeterReaderBase[DataReadout]):
         """
         readouts_received: list[DataReadout] = []
 
-        if len(self._buffer) > 8191:
-            self._is_int_hunt_mode = True
-            self._buffer.trim_buffer_to_flag_or_end()
-
         self._buffer.extend(data_chunk)
 
         if self._is_int_hunt_mode:
@@ -289,7 +288,7 @@ class ModeDReader(MeterReaderBase[DataReadout]):
         while True:
             line = self._buffer.pop()
             if line is None:
-                return readouts_received
+                break
 
             if self.is_in_hunt_mode:
                 if line[0] == START_CHARACTER_HEX and line.isascii():
@@ -306,6 +305,16 @@ class ModeDReader(MeterReaderBase[DataReadout]):
                     _LOGGER.debug("Readout received:\n%s", readout)
                     self._raw_data.clear()
                     self._is_int_hunt_mode = True
+
+        # Drop the consumed bytes, and give up on a readout that grows too long (unterminated line or missing end line).
+        self._buffer.trim_buffer_to_current_position()
+        if len(self._buffer) + len(self._raw_data) > ModeDReader.MAX_READOUT_LENGTH:
+            _LOGGER.debug("Max readout length reached. Discard data.")
+            self._buffer.clear()
+            self._raw_data.clear()
+            self._is_int_hunt_mode = True
+
+        return readouts_received
 
 
 class _ReaderBuffer:
@@ -333,6 +342,11 @@ class _ReaderBuffer:
     def extend(self, data_chunk: bytes) -> None:
         """Add bytes to buffer."""
         self._buffer.extend(data_chunk)
+
+    def clear(self) -> None:
+        """Remove all bytes from buffer."""
+        self._buffer.clear()
+        self._buffer_pos = 0
 
     def trim_buffer_to_current_position(self) -> None:
         """Trim buffer to current position."""
